@@ -371,7 +371,8 @@ def _effective(sites):
     ms = []
     for k, v in sites.items():
         if v.get('kind') in ('E', 'R'):
-            for up in chains(v['fn'], 7, frozenset()):
-                own = frozenset(canon(_norm_elem(g, v['fn'])) for g in v['guards'] if not _LOOP_HAS_NEXT.match(g))
-                ms.append((_norm_elem(v['label'], v['fn']), tuple(sorted(own | up)), k))
+            # one entry per distinct effective condition set of the site (how many call chains lead to the same set does not matter)
+            own = frozenset(canon(_norm_elem(g, v['fn'])) for g in v['guards'] if not _LOOP_HAS_NEXT.match(g))
+            for eff in sorted({tuple(sorted(own | up)) for up in chains(v['fn'], 10, frozenset())}):
+                ms.append((_norm_elem(v['label'], v['fn']), eff, k))
     return sorted(ms)
